@@ -30,7 +30,13 @@ NTS     == SubSeq(<<"A", "B", "C", "D">>, 1, NumNT)
 NtSet   == { NTS[i] : i \in 1 .. Len(NTS) }
 Symbols == NtSet \cup TERMS
 Pfx     == [i \in 1 .. PrefixLen |-> "a"]
-AltPool == IF Pool = "nts"
+(* "chain": symbol number i uses only later symbols: empty, <<t>>, <<N>>, <<N, t>> (FIRST / FOLLOW through nullable *)
+(* heads of a chain of productions); the start symbol is the first one                                          *)
+NtIndex(A) == CHOOSE i \in 1 .. Len(NTS) : NTS[i] = A
+Later(i) == { NTS[j] : j \in (i + 1) .. Len(NTS) }
+ChainPool(i) == {<<>>} \cup { <<t>> : t \in TERMS } \cup { <<N>> : N \in Later(i) } \cup { <<N, t>> : N \in Later(i), t \in TERMS }
+AltPool == IF Pool = "chain" THEN UNION { ChainPool(i) : i \in 1 .. Len(NTS) }
+           ELSE IF Pool = "nts"
              THEN {<<>>} \cup { <<t>> : t \in TERMS } \cup UNION { [1 .. n -> NtSet] : n \in 2 .. MaxLen }
              ELSE { Pfx \o t : t \in UNION { [1 .. n -> Symbols] : n \in 0 .. MaxLen } }
 
@@ -45,6 +51,7 @@ Init == /\ prods = [i \in 1 .. Len(NTS) |-> <<>>] /\ cur = 1 /\ start = "" /\ ph
 AddAlt(alt) ==
   /\ phase = "build" /\ Len(prods[cur]) < MaxAlts
   /\ (prods[cur] # <<>> => prods[cur][Len(prods[cur])] # alt)
+  /\ (Pool = "chain" => alt \in ChainPool(cur))
   /\ (Pool = "nts" /\ Len(alt) > 1 =>               \* one sequence of non-terminals in the whole grammar
          \A j \in 1 .. Len(NTS) : \A i \in 1 .. Len(prods[j]) : Len(prods[j][i]) <= 1)
   /\ prods' = [prods EXCEPT ![cur] = Append(@, alt)]
@@ -58,6 +65,7 @@ Grammar(s) == [nts |-> NtSet, terms |-> TERMS, start |-> s,
 
 Finish(s) ==
   /\ phase = "build" /\ cur = Len(NTS) /\ prods[cur] # <<>>
+  /\ (Pool = "chain" => s = NTS[1])
   /\ start' = s /\ phase' = "done"
   /\ LET G == Grammar(s) IN
        Emit => PrintT(ToJson([start   |-> s,
